@@ -12,11 +12,13 @@ from .common import TRUSTED_WIRE, cfg_class, require_no_errors, wire_results
 META = {
     "level": "other",
     "technique": "static analysis: order-sensitivity events and symmetric-consumption typing in the abstract "
-    "interpretation, degree-0 homogeneity by substitution on normal forms, name-taint and identity-key AST rules",
+    "interpretation, degree-0 homogeneity by substitution on normal forms, metamorphic comparison of "
+    "interpreted concrete networks under renaming / reversed construction order, identity-key AST rule",
     "rule": "obligations = per configuration: no member is singled out of a multi-member neighbourhood and no "
     "sorted()/reversed() is applied (order), neighbourhood families are consumed only under sums (enforced "
     "by the term language), scaling all turn rates of the links leaving the upstream node by c leaves every "
-    "next state unchanged; package-wide: `.name` flows only into labels/messages, no element class defines "
+    "next state unchanged; on six concrete networks: renaming all elements and reversing the insertion "
+    "order of nodes and edges leaves every element's next state the same term; no element class defines "
     "__eq__/__hash__",
     "explanation": "Collections of entering/leaving links are abstract families; the only operations the "
     "interpretation accepts on them are membership-independent (len, any, iteration into a family consumed by "
@@ -97,31 +99,71 @@ def run(rep: Report) -> None:
                           key=f"share|{cfg_class(cfg)}|{cfg.impl}")
     rep.floor("bifurcation configurations checked for scale invariance", n_scale, 100)
 
-    # (a) names: `.name` loads in the dynamics flow only into labels / messages
-    mods = [m for m in prog.modules if m.startswith("sym_metanet.blocks") or m in (
-        "sym_metanet.engines.numpy", "sym_metanet.engines.casadi", "sym_metanet.network")]
-    n_names = 0
-    for mname in mods:
-        mi = prog.modules[mname]
-        parents = {}
-        for pnode in ast.walk(mi.tree):
-            for c in ast.iter_child_nodes(pnode):
-                parents[c] = pnode
-        for fn in [f for f in prog.all_functions() if f.module == mname]:
-            if mname == "sym_metanet.network" and fn.name not in ("step", "elements", "states", "next_states",
-                                                                  "actions", "disturbances"):
-                continue
-            if fn.name in ("__repr__", "__str__", "__init__"):
-                continue
-            for node in walk_no_nested(fn.node):
-                if isinstance(node, ast.Attribute) and node.attr == "name" and isinstance(node.ctx, ast.Load):
-                    n_names += 1
-                    ok = _is_label_use(node, parents)
-                    rep.check(ok, "names-are-labels", f"`{ast.unparse(node)}` in {fn.qualname}",
-                              f"{mi.relpath}:{node.lineno} {fn.qualname}",
-                              "an element name is used for something other than a variable label or a "
-                              "message: renaming elements can change the result", key=f"name|{fn.qualname}")
-    rep.floor("uses of .name in the dynamics/compilation", n_names, 10)
+    # (a) names and construction order: metamorphic comparison on concrete networks.
+    # The same network is interpreted with (i) other element names in another
+    # alphabetical order, (ii) nodes and edges inserted in the reverse order; every
+    # element's next state must be the same term.
+    from .. import balance as B
+    from ..gworld import GraphV
+    from ..interp import Raised
+
+    n_meta = 0
+    for impl in ("casadi", "numpy") if rep.tier == "thorough" else ("casadi",):
+        base_outputs = {}
+        for variant in ("base", "renamed", "reversed-construction", "renamed+reversed"):
+            for name, gw in B.networks(prog, impl):
+                if "renamed" in variant:
+                    gw.name_alias = {}
+                    for i, (ident, o) in enumerate(sorted(gw.roles.items())):
+                        nm = f"{chr(ord('z') - i % 26)}{i}x"
+                        o.attrs["name"] = nm
+                        gw.name_alias[nm] = ident
+                    for i, nd in enumerate(list(gw.graph.node)):
+                        nd.attrs["name"] = f"node{99 - i}"
+                if "reversed" in variant:
+                    g = gw.graph
+                    g2 = GraphV()
+                    for nd in reversed(list(g.node)):
+                        g2.add_node(nd, **g.node[nd])
+                    for u, v, d in reversed(g.out_edges()):
+                        g2.add_edge(u, v, **d)
+                    gw.graph = g2
+                    gw.net.attrs["_graph"] = g2
+                try:
+                    it = B.step(prog, gw)
+                except Raised as e:
+                    rep.refuted("invariance", f"{impl}: {name} [{variant}]", "Network.step",
+                                f"stepping raises {e.exc}: {e.msg}", key=f"meta|raise|{variant}")
+                    continue
+                outs = {}
+                for ident, o in gw.roles.items():
+                    ns = o.attrs.get("next_states")
+                    if isinstance(ns, dict):
+                        outs[ident] = {k: v.t for k, v in ns.items()}
+                if variant == "base":
+                    base_outputs[name] = (outs, gw.env)
+                    continue
+                n_meta += 1
+                ref, env = base_outputs[name]
+                nz = M.make_normalizer(None, with_domain=False)
+                ok, detail = True, ""
+                for ident, vs in ref.items():
+                    for var, t in vs.items():
+                        got = outs.get(ident, {}).get(var)
+                        if got is None:
+                            ok, detail = False, f"no next {var} of {ident}"
+                            continue
+                        try:
+                            mm = M.compare(got, t, env, nz)
+                        except E.ShapeError as ex:
+                            mm = [("shape", str(ex), "")]
+                        if mm:
+                            ok = False
+                            detail = (f"next {var} of {ident} at {mm[0][0]} differs: {variant} = {mm[0][1][:250]} | "
+                                      f"reference = {mm[0][2][:250]}")
+                rep.check(ok, "invariance", f"{impl}: {name} [{variant}]", "Network.step", detail,
+                          key=f"meta|{variant}|{name.split('(')[0]}")
+    rep.floor("metamorphic network variants", n_meta, 15)
     # (b) identity keys
     base = "sym_metanet.blocks.base:ElementBase"
     n_cls = 0
@@ -133,46 +175,6 @@ def run(rep: Report) -> None:
                   f"{ci.name} defines {bad}: elements would be keyed by value/name instead of identity",
                   key=f"eq|{ci.name}")
     rep.floor("element classes", n_cls, 10)
-
-
-def _is_label_use(node, parents) -> bool:
-    cur = node
-    while cur in parents:
-        p = parents[cur]
-        if isinstance(p, ast.JoinedStr):
-            # f-string: fine if it ends up as the name argument of engine.var, in a raise /
-            # message, or in a names list of the compilation helpers
-            q = p
-            while q in parents:
-                pp = parents[q]
-                if isinstance(pp, ast.Call):
-                    f = pp.func
-                    if isinstance(f, ast.Attribute) and f.attr == "var" and pp.args and pp.args[0] is q:
-                        return True
-                    if isinstance(f, ast.Attribute) and f.attr == "append":
-                        recv = ast.unparse(f.value)
-                        if "name" in recv or "msg" in recv:
-                            return True
-                    if isinstance(f, ast.Name) and f.id.endswith(("Error", "Warning")):
-                        return True
-                    if isinstance(f, ast.Attribute) and f.attr.endswith(("Error", "Warning")):
-                        return True
-                if isinstance(pp, ast.Raise):
-                    return True
-                if isinstance(pp, (ast.FunctionDef, ast.Module)):
-                    break
-                q = pp
-            return False
-        if isinstance(p, ast.BinOp) and isinstance(p.op, ast.Add):
-            cur = p
-            continue
-        if isinstance(p, ast.Call) and isinstance(p.func, ast.Attribute) and p.func.attr == "append":
-            recv = ast.unparse(p.func.value)
-            return "name" in recv or "msg" in recv
-        if isinstance(p, (ast.FunctionDef, ast.Module)):
-            return False
-        cur = p
-    return False
 
 
 def _fn(where: str) -> str:
